@@ -275,7 +275,7 @@ fn acc_of(r: &VerifyResult) -> Option<bool> {
     }
 }
 
-//@ob id=G-MCA-1 kind=C props=C01,C03,C04,C11 timeout=1800 fn=IngredientImpl::maybe_changed_after,IngredientImpl::maybe_changed_after_cold,MemoHeader::maybe_changed_after_hot,MemoHeader::shallow_verify_memo,MemoHeader::update_shallow,VerifyResult::unchanged_for_memo flags=stubs,noreplay
+//@off(superseded-by-G-MCA-2) id=G-MCA-1 kind=C props=C01,C03,C04,C11 timeout=1800 fn=IngredientImpl::maybe_changed_after,IngredientImpl::maybe_changed_after_cold,MemoHeader::maybe_changed_after_hot,MemoHeader::shallow_verify_memo,MemoHeader::update_shallow,VerifyResult::unchanged_for_memo flags=stubs,noreplay
 //@ pre: any monotone revision vector; the key has no memo, or a final derived memo with any value presence (Some / evicted), any durability, verified at any revision <= current, changed_at <= verified_at; `verify_memo` (stub, contract above) gives any verdict; `execute` (stub) returns a memo verified now with any changed_at <= current; any query revision `rev` <= current
 //@ post: Unchanged <=> the memo that is valid at the end (the stored one if it verified, else the re-executed one) has changed_at <= rev - after a re-execution it is the **new** memo's changed_at that is compared with the caller's revision [C01, C04]; nothing else yields Changed [C03]; no memo => Changed
 //@ post: an Unchanged answer carries the memo's accumulated-inputs flag **as it is after verification** [C11]
@@ -335,7 +335,7 @@ fn g_mca_1_maybe_changed_after() {
     std::mem::forget(w);
 }
 
-//@ob id=G-FETCH-1 kind=C props=C01,C03,C05,C06 timeout=1800 fn=IngredientImpl::fetch,IngredientImpl::refresh_memo,IngredientImpl::fetch_hot,IngredientImpl::fetch_cold,MemoHeader::shallow_verify_memo,MemoHeader::update_shallow flags=stubs,noreplay
+//@off(superseded-by-G-FETCH-2) id=G-FETCH-1 kind=C props=C01,C03,C05,C06 timeout=1800 fn=IngredientImpl::fetch,IngredientImpl::refresh_memo,IngredientImpl::fetch_hot,IngredientImpl::fetch_cold,MemoHeader::shallow_verify_memo,MemoHeader::update_shallow flags=stubs,noreplay
 //@ pre: as G-MCA-1 (no memo / memo with value / memo whose value was evicted; any stamps; any verification verdict)
 //@ post: the stored value is returned iff the stored memo has a value and is valid in the current revision afterwards; otherwise the body runs (once) and its result is returned [C01, C03]
 //@ post: `execute` receives the stored memo as old memo **whenever one is stored - also when its value was evicted**: the dependency and output bookkeeping of an evicted result is what the re-execution is diffed against [C05, C06]
